@@ -86,6 +86,17 @@ Theorem c07_waiting_state_watches : forall t, In t [table_swap_in_sender; table_
 Proof. exact waiting_state_watches_gen. Qed.
 Print Assumptions c07_waiting_state_watches.
 
+(* (c2, restart) RecoverSwaps on a swap stored in a waiting state registers the CSV watch again *)
+Theorem c07_recover_watches : forall t, In t [table_swap_in_sender; table_swap_out_receiver] ->
+  forall dec m w r w' es x pol,
+  mem (m_cur m) (post_states t) = true -> waiting_state t (m_cur m) = true -> is_fin terminal_states (m_cur m) = false ->
+  d_otb (m_data m) = Some x -> chain_known (m_data m) = true -> timelock_policy tl_consts_gen (m_data m) = Some pol ->
+  hd false (q_script w) = true ->
+  recover tl_consts_gen dec t m w = (r, w', es) ->
+  In (EWatchCsv (ob_txid x) (ob_vout x) (d_start_height (m_data m)) (p_csv pol)) es.
+Proof. exact recover_watches_gen. Qed.
+Print Assumptions c07_recover_watches.
+
 (* (c3, partial: the temporal composition of c1-c3 over a history is not a theorem here) Every state reachable
    after the broadcast is a waiting state that watches, a finished state, a state attempting a spend, or the
    (re)transmission of the announcement that continues into a waiting state whatever its outcome. *)
